@@ -172,33 +172,40 @@ def partitionIndices (s : State) (n : Nat) : List Nat :=
   let front := s.indices.take n
   front.filter stencil ++ front.filter (fun i => !stencil i) ++ s.indices.drop n
 
-/-- `InitTracksExecutor::operator()(tid)`; `c` is the executor's by-value copy of the counters -/
-def initTrack (c : Counters) (n : Nat) (s : State) (tid : Nat) : State :=
-  let getIdx := fun (size : Nat) =>
-    match s.cfg.order with
-    | .initCharge => s.indices.getD (indexBefore n tid) 0 + size - n
-    | .none => indexBefore size tid
-  let ini := s.initializers.getD (getIdx c.numInitializers) default
-  let vacIdx :=
-    match s.cfg.order with
-    | .initCharge => indexPartitioned n c.numVacancies (isNeutral ini.particle) tid
-    | .none => indexBefore c.numVacancies tid
-  let slot := s.vacancies.getD vacIdx 0
-  -- vacancy.make_sim_view() = init.sim; make_particle_view() = init.particle
-  let parentSlot : Option Nat :=
-    if ¬ (tid < c.numSecondaries) then none else s.parents.getD (getIdx s.parents.length) none
-  let old := s.slots.getD slot Slot.empty
+/-- the freshly initialised slot: `sim = init.sim`, `particle = init.particle`, geometry either
+    copied from the parent's slot (`parentPos`) or initialised from the position (which fails
+    outside the world: `apply_errored`, return) -/
+def newTrackSlot (ini : Init) (old : Slot) (parentPos : Option Nat) : Slot :=
   let base : Slot := { old with status := .initializing, tid := some ini.tid,
                                 parent := ini.parent, ev := ini.ev, steps := 0,
                                 particle := ini.particle }
-  let new : Slot :=
-    match parentSlot with
-    | some p => { base with pos := (s.slots.getD p Slot.empty).pos }   -- copy parent's geo state
-    | none =>
-      -- geometry state holds the requested position but failed: apply_errored; return
-      if ini.pos ≥ outsideTag then { base with status := .errored, pos := ini.pos }
-      else { base with pos := ini.pos }
-  { s with slots := s.slots.set slot new,
+  match parentPos with
+  | some pos => { base with pos := pos }
+  | none =>
+    if ini.pos ≥ outsideTag then { base with status := .errored, pos := ini.pos }
+    else { base with pos := ini.pos }
+
+/-- `get_idx(size)` of `InitTracksExecutor` -/
+def initGetIdx (s : State) (n tid size : Nat) : Nat :=
+  match s.cfg.order with
+  | .initCharge => s.indices.getD (indexBefore n tid) 0 + size - n
+  | .none => indexBefore size tid
+
+/-- index into the vacancy array used by thread `tid` for initializer `ini` -/
+def initVacIdx (s : State) (c : Counters) (n tid : Nat) (ini : Init) : Nat :=
+  match s.cfg.order with
+  | .initCharge => indexPartitioned n c.numVacancies (isNeutral ini.particle) tid
+  | .none => indexBefore c.numVacancies tid
+
+/-- `InitTracksExecutor::operator()(tid)`; `c` is the executor's by-value copy of the counters -/
+def initTrack (c : Counters) (n : Nat) (s : State) (tid : Nat) : State :=
+  let ini := s.initializers.getD (initGetIdx s n tid c.numInitializers) default
+  let slot := s.vacancies.getD (initVacIdx s c n tid ini) 0
+  let parentSlot : Option Nat :=
+    if ¬ (tid < c.numSecondaries) then none
+    else s.parents.getD (initGetIdx s n tid s.parents.length) none
+  let parentPos := parentSlot.map fun p => (s.slots.getD p Slot.empty).pos
+  { s with slots := s.slots.set slot (newTrackSlot ini (s.slots.getD slot Slot.empty) parentPos),
            started := s.started ++ [(⟨ini.ev, ini.tid, ini.parent⟩ : Rec)] }
 
 /-- `InitializeTracksAction::step_impl` (not warming up) -/
@@ -209,7 +216,9 @@ def initializeTracks (s : State) : State :=
       let s1 :=
         match s.cfg.order with
         | .initCharge =>
-          let s0 := { s with indices := List.range s.indices.length }   -- fill_sequence
+          -- fill_sequence over the whole `indices` collection, whose size is the number of
+          -- track slots (TrackInitData.hh `resize(&data->indices, size)`)
+          let s0 := { s with indices := List.range s.slots.length }
           { s0 with indices := partitionIndices s0 n }
         | .none => s
       let s2 := (List.range n).foldl (initTrack s1.c n) s1
